@@ -129,6 +129,10 @@ func checkC03(c *Check) {
 		w.Seed = func(w *walker, st *wstate, v ssa.Value) *absVal {
 			switch x := v.(type) {
 			case *ssa.Call:
+				// errors.Is(err, ESRCH) on the handler's error: no
+				if e, _, ok := errorsIsConst(x); ok && strings.Contains(describe(e), "handleTrap") {
+					return avBool(false)
+				}
 				n, callee := calleeOf(x)
 				switch {
 				case isWaitStatusMethod(n, "Exited"), isWaitStatusMethod(n, "Signaled"):
